@@ -110,16 +110,18 @@ mod verif_c09 {
 
     macro_rules! escape_harness {
         ($name:ident, $len:expr) => {
-            // escape_str then decode gives back the original bytes, for every valid UTF-8 string of this length
+            // escape_str then decode gives back the original bytes, for every ASCII string of this length
+            // (non-ASCII bytes are copied through unchanged by escape_str: its `_ => continue` arm)
             #[kani::proof]
             #[kani::unwind(22)]
             fn $name() {
                 let bytes: [u8; $len] = kani::any();
-                let text = match core::str::from_utf8(&bytes) {
-                    Ok(t) => t,
-                    Err(_) => return,
-                };
-                kani::cover!(true);
+                let mut k = 0;
+                while k < $len {
+                    kani::assume(bytes[k] < 0x80);
+                    k += 1;
+                }
+                let text = unsafe { core::str::from_utf8_unchecked(&bytes) };
                 let mut sink = Sink { buf: [0; CAP], len: 0 };
                 let r = escape_str(&mut sink, text);
                 assert!(r.is_ok());
@@ -140,18 +142,44 @@ mod verif_c09 {
     escape_harness!(c09_escape_len2, 2);
     escape_harness!(c09_escape_len3, 3);
 
-    // ---- ASSUMED contract of <f64 as FromStr>::from_str (same stub as for C08) -----------------------------
+    // ---- executable oracle: does the YAML 1.2.2 core schema (10.3.2) read this plain scalar as something else
+    // than a string?  (same transcription as in kani/scalar_harness.rs, which checks the real resolver against it)
     fn is_dig(b: u8) -> bool {
         b >= b'0' && b <= b'9'
     }
-    fn eq_ci(s: &[u8], w: &[u8]) -> bool {
-        if s.len() != w.len() {
-            return false;
+    fn core_null(s: &[u8]) -> bool {
+        s == b"null" || s == b"Null" || s == b"NULL" || s == b"~"
+    }
+    fn core_bool(s: &[u8]) -> bool {
+        s == b"true" || s == b"True" || s == b"TRUE" || s == b"false" || s == b"False" || s == b"FALSE"
+    }
+    fn core_int(s: &[u8]) -> bool {
+        let n = s.len();
+        if n >= 3 && s[0] == b'0' && (s[1] == b'x' || s[1] == b'o') {
+            let hex = s[1] == b'x';
+            let mut i = 2;
+            while i < n {
+                let ok = match s[i] {
+                    b'0'..=b'7' => true,
+                    b'8' | b'9' | b'a'..=b'f' | b'A'..=b'F' => hex,
+                    _ => false,
+                };
+                if !ok {
+                    return false;
+                }
+                i += 1;
+            }
+            return true;
         }
         let mut i = 0;
-        while i < s.len() {
-            let c = if s[i] >= b'A' && s[i] <= b'Z' { s[i] + 32 } else { s[i] };
-            if c != w[i] {
+        if n > 0 && (s[0] == b'+' || s[0] == b'-') {
+            i = 1;
+        }
+        if i >= n {
+            return false;
+        }
+        while i < n {
+            if !is_dig(s[i]) {
                 return false;
             }
             i += 1;
@@ -193,6 +221,36 @@ mod verif_c09 {
             }
         }
         i == n
+    }
+    fn core_float(s: &[u8]) -> bool {
+        if s == b".nan" || s == b".NaN" || s == b".NAN" {
+            return true;
+        }
+        let mut i = 0;
+        if !s.is_empty() && (s[0] == b'+' || s[0] == b'-') {
+            i = 1;
+        }
+        let rest = &s[i..];
+        rest == b".inf" || rest == b".Inf" || rest == b".INF" || dec_float_body(s, i)
+    }
+    fn core_typed(s: &[u8]) -> bool {
+        core_null(s) || core_bool(s) || core_int(s) || core_float(s)
+    }
+
+    // ---- ASSUMED contract of <f64 as FromStr>::from_str (grammar from the std documentation, as for C08) ------
+    fn eq_ci(s: &[u8], w: &[u8]) -> bool {
+        if s.len() != w.len() {
+            return false;
+        }
+        let mut i = 0;
+        while i < s.len() {
+            let c = if s[i] >= b'A' && s[i] <= b'Z' { s[i] + 32 } else { s[i] };
+            if c != w[i] {
+                return false;
+            }
+            i += 1;
+        }
+        true
     }
     fn f64_from_str_stub(s: &str) -> Result<f64, core::num::ParseFloatError> {
         let b = s.as_bytes();
@@ -257,11 +315,10 @@ mod verif_c09 {
     }
 
     fn check_need_quotes(s: &[u8]) {
-        let text = core::str::from_utf8(s).unwrap();
+        let text = unsafe { core::str::from_utf8_unchecked(s) };
         if !need_quotes(text) {
-            // what the emitter writes unquoted must read back as the same string ...
-            let r = Scalar::parse_from_cow(Cow::Borrowed(text));
-            assert!(matches!(r, Scalar::String(ref t) if t.as_bytes() == s), "unquoted text would not reload as the same string");
+            // what the emitter writes unquoted must not be read back as a null / bool / int / float ...
+            assert!(!core_typed(s), "unquoted text would reload as a typed scalar, not as the same string");
             // ... and must be a legal one-line plain scalar
             assert!(safe_plain(s), "unquoted text is not a safe plain scalar");
         }
@@ -278,7 +335,6 @@ mod verif_c09 {
                     kani::assume(in_alphabet(bytes[i]));
                     i += 1;
                 }
-                kani::cover!(true);
                 check_need_quotes(&bytes);
             }
         };
@@ -288,14 +344,31 @@ mod verif_c09 {
     quotes_harness!(c09_need_quotes_len3, 3);
     quotes_harness!(c09_need_quotes_len4, 4);
 
-    // type-like words (concrete, loop-free over the list)
-    #[kani::proof]
-    #[kani::unwind(30)]
-    #[kani::stub(<f64 as core::str::FromStr>::from_str, f64_from_str_stub)]
-    fn c09_need_quotes_words() {
-        let words: [&str; 16] = ["null", "Null", "NULL", "~", "true", "True", "false", "FALSE", "0o17", "0x1F", "+12", "1e3", ".inf", ".nan", "-1", "12"];
-        let k: usize = kani::any();
-        kani::assume(k < 16);
-        check_need_quotes(words[k].as_bytes());
+    // type-like words (one harness per word: concrete input)
+    macro_rules! word_harness {
+        ($name:ident, $w:expr) => {
+            #[kani::proof]
+            #[kani::unwind(30)]
+            #[kani::stub(<f64 as core::str::FromStr>::from_str, f64_from_str_stub)]
+            fn $name() {
+                check_need_quotes($w);
+            }
+        };
     }
+    word_harness!(c09_word_null, b"null");
+    word_harness!(c09_word_null_cap, b"Null");
+    word_harness!(c09_word_true, b"true");
+    word_harness!(c09_word_false_up, b"FALSE");
+    word_harness!(c09_word_octal, b"0o17");
+    word_harness!(c09_word_hex, b"0x1F");
+    word_harness!(c09_word_plus_int, b"+12");
+    word_harness!(c09_word_exp, b"1e3");
+    word_harness!(c09_word_inf, b".inf");
+    word_harness!(c09_word_plus_inf, b"+.inf");
+    word_harness!(c09_word_minus_inf, b"-.INF");
+    word_harness!(c09_word_nan, b".NaN");
+    word_harness!(c09_word_tilde, b"~");
+
+    // (floats: `write!("{v}")` of an f64 is far beyond CBMC even for a concrete value - two harnesses for 1.0 and 0.5
+    // were cut off after 600 s - so what the emitter writes for a float is NOT decided here; see DESIGN.md 9.6)
 }
